@@ -287,6 +287,8 @@ def parse_cbmc_json(text):
 
 
 def classify(desc):
+    if desc.startswith('check: data race'):
+        return 'race'
     if desc.startswith('check: '):
         return 'check'
     if desc.startswith('witness: ') or desc.startswith('reach: '):
@@ -460,7 +462,14 @@ def em_reachable_defined(mod, em, inst):
 
 def resolve_unwind_fn(inst, cfile):
     """'unwind_fn': {function name: bound} -> bound for every loop of that (C-level) function"""
-    uf = inst.get('unwind_fn')
+    uf = dict(inst.get('unwind_fn') or {})
+    if 'VF_RACE' in inst.get('rt_defs', {}):
+        # loops of the happens-before detector run over its (small, constant) tables
+        n = max(int(inst['rt_defs'].get('VF_RACE_ATOMS', 8)), int(inst['rt_defs'].get('VF_RACE_PROBES', 8)),
+                inst.get('nthreads', 5)) + 1
+        for fn in ('vf_race_atom', 'vf_race_probe', 'vf_race_store', 'vf_race_load', 'vf_race_rmw', 'vf_race_fence',
+                   'vf_race_spawn', 'vf_race_join', 'vf_race_write', 'vf_race_read', 'vf_race_init', 'vf_join_all'):
+            uf.setdefault(fn, n)
     if not uf or '_unwind_fn_resolved' in inst:
         return
     gb = cfile[:-2] + '.gb'
@@ -473,6 +482,12 @@ def resolve_unwind_fn(inst, cfile):
             fn = m.group(1)
             if fn in uf:
                 res['%s.%s' % (fn, m.group(2))] = uf[fn]
+            else:
+                # keys of the form 're:<regex>' match every function whose name contains the regex
+                for k, v in uf.items():
+                    if k.startswith('re:') and re.search(k[3:], fn):
+                        res['%s.%s' % (fn, m.group(2))] = v
+                        break
     inst['_unwind_fn_resolved'] = res
 
 
